@@ -296,7 +296,13 @@ def rule_coverage(R):
                             for y in walk(nb.operand_term(a)):
                                 if y[0] == "field" and y[1][0] == "downcast" and y[1][2] == "WithCorrelation":
                                     fields.add(y[2])
-                ok2 = {"correlation", "props", "index", "yielded_correlation"} <= fields
+                # every field the variant has takes part (the correlation entry, the user properties and the cursor -- whatever
+                # they are called and however the "already yielded" state is kept)
+                want_f = set()
+                for v_ in f.adts.get(si["enum"], {}).get("variants", []):
+                    if v_["name"] == "WithCorrelation":
+                        want_f = set(fl_["name"] for fl_ in v_["fields"])
+                ok2 = bool(want_f) and want_f <= fields and len(want_f) >= 3
         R.ob("coverage/iter/next-with-correlation", ok2,
              "iterating a correlated property set yields the correlation entry and every user property", where=nb.span)
 
